@@ -406,6 +406,7 @@ static void run_bat(char mode, int verify, int batch_size, char* proj) {
     carquet_batch_reader_config_init(&cfg);
     cfg.batch_size = batch_size;
     cfg.use_mmap = (mode == 'm');
+    { const char* th = getenv("H_THREADS"); cfg.num_threads = th ? atoi(th) : 2; }   /* sequential semantics are C02's subject; C07 owns scheduling */
     int32_t idx[MAXCOLS * 2]; const char* names[MAXCOLS * 2]; int np = 0;
     int pcols[MAXCOLS * 2]; int npc = 0;           /* file column index of each projected column */
     int ncols = carquet_reader_num_columns(rd);
